@@ -134,3 +134,71 @@ class CompositeCoordinates(Contract):
                    *[eq(f, 1) for f in flags])
 
     ensures = [prop("components-placed-per-OpenType-composite-rules", lambda a, old, r: CompositeCoordinates._post(a, r))]
+
+
+# -- Glyph.draw / drawPoints: observers must not change the glyph -------------------------------------
+
+@contract
+class GlyphDrawIsAnObserver(Contract):
+    """Glyph.draw and Glyph.drawPoints with a horizontal offset (the glyph set passes lsb - xMin) on
+    a simple glyph with symbolic coordinates: the pen receives every point shifted by the offset,
+    the glyph's own coordinates, flags and end points are unchanged afterwards, and a second draw
+    delivers exactly what the first did (polygon of on-curve points; offset symbolic)."""
+    module = "fontTools.ttLib.tables._g_l_y_f"
+    qualname = "Glyph.draw"
+    props = ("C14", "C05", "C16")
+    rebind = staticmethod(_rebind)
+    variants = ("triangle", "two-contours")
+    level = "PF"
+    assumptions = ("A-REAL",)
+
+    def args(self, S, variant):
+        mod = self.mod
+        n = 3 if variant == "triangle" else 5
+        g = mod.Glyph.__new__(mod.Glyph)
+        pts = [(S.real("x%d" % i), S.real("y%d" % i)) for i in range(n)]
+        g.numberOfContours = 1 if variant == "triangle" else 2
+        g.coordinates = mod.GlyphCoordinates(pts)
+        g.endPtsOfContours = [2] if variant == "triangle" else [2, 4]
+        g.flags = mod.bytearray([1] * n)
+        return dict(self=g, offset=S.real("offset"), _pts=pts, _n=n)
+
+    def call(self, f, a):
+        from fontTools.pens.recordingPen import RecordingPen, RecordingPointPen
+        cls = type(a.self)
+        r1, r2, rp = RecordingPen(), RecordingPen(), RecordingPointPen()
+        f(a.self, r1, {}, a.offset)
+        cls.drawPoints(a.self, rp, {}, a.offset)
+        f(a.self, r2, {}, a.offset)
+        return r1.value, r2.value, rp.value
+
+    @staticmethod
+    def _pen_points(value):
+        return [p for op, pts in value for p in pts if p is not None]
+
+    @staticmethod
+    def _shifted(a, r):
+        got = sorted(range(a._n))        # every input point appears exactly once, shifted
+        pts = GlyphDrawIsAnObserver._pen_points(r[0])
+        if len(pts) != a._n:
+            return False
+        # contour starts may be rotated: compare as multisets through a matching
+        cs = []
+        for x, y in a._pts:
+            cs.append(Or(*[And(eq(p[0], x + a.offset), eq(p[1], y)) for p in pts]))
+        return And(*cs)
+
+    @staticmethod
+    def _same_again(r):
+        p1, p2 = GlyphDrawIsAnObserver._pen_points(r[0]), GlyphDrawIsAnObserver._pen_points(r[1])
+        if [op for op, _ in r[0]] != [op for op, _ in r[1]] or len(p1) != len(p2):
+            return False
+        return And(*[And(eq(u[0], v[0]), eq(u[1], v[1])) for u, v in zip(p1, p2)])
+
+    ensures = [
+        prop("pen-receives-every-point-shifted-by-the-offset", lambda a, old, r: GlyphDrawIsAnObserver._shifted(a, r)),
+        prop("glyph-unchanged-by-drawing", lambda a, old, r: And(
+            len(a.self.coordinates) == a._n, list(a.self.endPtsOfContours) == list(old.self.endPtsOfContours),
+            *[And(eq(a.self.coordinates[i][0], a._pts[i][0]), eq(a.self.coordinates[i][1], a._pts[i][1])) for i in range(a._n)])),
+        prop("second-draw-equals-the-first", lambda a, old, r: GlyphDrawIsAnObserver._same_again(r)),
+    ]
